@@ -1051,6 +1051,8 @@ EXTRACTORS["C07"] = EXTRACTORS["C07"] + [GEN_SRC["SrcAvl"]]
 TRANSLATOR_MODULES.append("rs2lean_genleft")
 GEN_SRC.update({n: gen_src(n) for n in ("SrcSbRankOrd",)})
 EXTRACTORS["C17"] = EXTRACTORS["C17"] + [GEN_SRC["SrcSbRankOrd"]]
+GEN_SRC.update({n: gen_src(n) for n in ("SrcOrfNew",)})
+EXTRACTORS["C20"] = EXTRACTORS["C20"] + [GEN_SRC["SrcOrfNew"]]
 
 
 def main():
